@@ -2,4 +2,276 @@ import TensorModel.Run
 /-! Helper lemmas for C03 (transposition). -/
 namespace TM
 
+/-! ### naturality of `UnsafePermute` -/
+
+theorem swapAt_map {α β} (f : α → β) (xs : List α) (i j : Nat) :
+    swapAt (xs.map f) i j = (swapAt xs i j).map f := by
+  unfold swapAt
+  simp only [List.getElem?_map]
+  cases xs[i]? <;> cases xs[j]? <;> simp [List.map_set]
+
+theorem permuteLoop_map {α β} (f : α → β) (p : List Int) (dims : Nat) :
+    ∀ (fuel i : Nat) (xs : List α),
+      permuteLoop p dims fuel i (xs.map f) = (permuteLoop p dims fuel i xs).map (List.map f)
+  | 0, _, _ => rfl
+  | fuel + 1, i, xs => by
+    unfold permuteLoop
+    split
+    · rfl
+    · split
+      · rfl
+      · split
+        · rfl
+        · split
+          · rfl
+          · rw [swapAt_map, permuteLoop_map f p dims fuel]
+
+/-- the part of `unsafePermute` after validation -/
+def permTail {α} (p : List Int) (xs : List α) : Res (PermRes α) :=
+  if ((isMonotonicInts p).1 && (isMonotonicInts p).2) = true then .ok .noop
+  else if xs.length ≤ 1 then .ok (.ok xs)
+  else if (xs.length == 2) = true then
+    match xs with
+    | [a, b] => .ok (.ok [b, a])
+    | _ => .ok (.ok xs)
+  else (permuteLoop p xs.length xs.length 0 xs).map PermRes.ok
+
+theorem unsafePermute_eq {α} (p : List Int) (xs : List α) :
+    unsafePermute p xs =
+      if (p.length != xs.length) = true then throwErr "dimMismatch"
+      else match unsafePermute.check xs.length [] p with
+        | .error e => .error e
+        | .ok _ => permTail p xs := by
+  unfold unsafePermute permTail
+  simp only []
+  split
+  · rfl
+  · cases unsafePermute.check xs.length [] p with
+    | error e => rfl
+    | ok u =>
+      simp only [bind, Except.bind, pure, Except.pure]
+      split
+      · rfl
+      · split
+        · rfl
+        · split
+          · match xs with
+            | [] => rfl
+            | [_] => rfl
+            | [_, _] => rfl
+            | _ :: _ :: _ :: _ => rfl
+          · cases permuteLoop p xs.length xs.length 0 xs <;> rfl
+
+def PermRes.map {α β} (f : α → β) : PermRes α → PermRes β
+  | .ok ys => .ok (ys.map f)
+  | .noop => .noop
+
+theorem permTail_map {α β} (f : α → β) (p : List Int) (xs : List α) :
+    permTail p (xs.map f) = (permTail p xs).map (PermRes.map f) := by
+  unfold permTail
+  simp only [List.length_map]
+  split
+  · rfl
+  · split
+    · rfl
+    · split
+      · match xs with
+        | [] => rfl
+        | [_] => rfl
+        | [_, _] => rfl
+        | _ :: _ :: _ :: _ => rfl
+      · rw [permuteLoop_map]
+        cases permuteLoop p xs.length xs.length 0 xs <;> rfl
+
+theorem unsafePermute_map' {α β} (f : α → β) (p : List Int) (xs : List α) :
+    unsafePermute p (xs.map f) = (unsafePermute p xs).map (PermRes.map f) := by
+  rw [unsafePermute_eq, unsafePermute_eq]
+  simp only [List.length_map]
+  split
+  · rfl
+  · cases unsafePermute.check xs.length [] p with
+    | error e => rfl
+    | ok u => exact permTail_map f p xs
+
+/-! ### patterns accepted by `isPerm` are permutations of `0..n-1` -/
+
+theorem perm_of_nodup_subset {α} [DecidableEq α] :
+    ∀ (l₁ l₂ : List α), l₁.Nodup → l₁ ⊆ l₂ → l₂.length ≤ l₁.length → l₁.Perm l₂
+  | [], l₂, _, _, h => by
+    cases l₂ with
+    | nil => exact .nil
+    | cons => simp at h
+  | a :: t, l₂, hd, hs, hl => by
+    have ha : a ∈ l₂ := hs List.mem_cons_self
+    have hd' := List.nodup_cons.1 hd
+    have hsub : t ⊆ l₂.erase a := fun x hx =>
+      (List.mem_erase_of_ne (by rintro rfl; exact hd'.1 hx)).2 (hs (List.mem_cons_of_mem _ hx))
+    have hlen : (l₂.erase a).length ≤ t.length := by
+      rw [List.length_erase_of_mem ha]; simp at hl; omega
+    exact ((perm_of_nodup_subset t _ hd'.2 hsub hlen).cons a).trans (List.perm_cons_erase ha).symm
+
+theorem rangeI_nodup (n : Nat) : (rangeI n).Nodup := by
+  unfold rangeI List.Nodup
+  rw [List.pairwise_map]
+  exact List.Pairwise.imp (fun h e => h (Int.ofNat.inj e)) (List.nodup_range (n := n))
+
+theorem isPerm_iff (p : List Int) (n : Nat) :
+    isPerm p n = true ↔ p.length = n ∧ ∀ j, j < n → (Int.ofNat j) ∈ p := by
+  simp [isPerm]
+
+theorem rangeI_length (n : Nat) : (rangeI n).length = n := by simp [rangeI]
+
+theorem mem_rangeI {n : Nat} {x : Int} : x ∈ rangeI n ↔ ∃ j, j < n ∧ Int.ofNat j = x := by
+  simp [rangeI]
+
+theorem isPerm_perm {p : List Int} {n : Nat} (h : isPerm p n = true) : (rangeI n).Perm p := by
+  obtain ⟨hl, hm⟩ := (isPerm_iff p n).1 h
+  refine perm_of_nodup_subset _ _ (rangeI_nodup n) ?_ (by rw [rangeI_length, hl]; exact Nat.le_refl _)
+  intro x hx
+  obtain ⟨j, hj, rfl⟩ := mem_rangeI.1 hx
+  exact hm j hj
+
+/-- all lists of length `k` over `l` -/
+def cands (l : List Int) : Nat → List (List Int)
+  | 0 => [[]]
+  | k + 1 => l.flatMap (fun x => (cands l k).map (x :: ·))
+
+theorem mem_cands (l : List Int) : ∀ (p : List Int), (∀ x ∈ p, x ∈ l) → p ∈ cands l p.length
+  | [], _ => by simp [cands]
+  | a :: t, h => by
+    simp only [cands, List.length_cons, List.mem_flatMap, List.mem_map]
+    exact ⟨a, h a List.mem_cons_self, t, mem_cands l t (fun x hx => h x (List.mem_cons_of_mem _ hx)), rfl⟩
+
+theorem isPerm_mem_cands {p : List Int} {n : Nat} (h : isPerm p n = true) : p ∈ cands (rangeI n) n := by
+  have hp := isPerm_perm h
+  have := mem_cands (rangeI n) p (fun x hx => hp.symm.subset hx)
+  rwa [((isPerm_iff p n).1 h).1] at this
+
+/-! ### `UnsafePermute` on `0..n-1`, by enumeration for `n ≤ 5` -/
+
+def rangeOK (n : Nat) (p : List Int) : Bool :=
+  match unsafePermute p (rangeI n) with
+  | .ok (.ok q) => !((isMonotonicInts p).1 && (isMonotonicInts p).2) && q == p
+  | .ok .noop => (isMonotonicInts p).1 && (isMonotonicInts p).2
+  | .error _ => false
+
+theorem rangeOK_spec {n : Nat} {p : List Int} (h : rangeOK n p = true) :
+    unsafePermute p (rangeI n) =
+      .ok (if (isMonotonicInts p).1 && (isMonotonicInts p).2 then PermRes.noop else PermRes.ok p) := by
+  unfold rangeOK at h
+  split at h
+  · next q hq =>
+    simp only [Bool.and_eq_true, Bool.not_eq_true', beq_iff_eq] at h
+    rw [hq, h.1, h.2]; rfl
+  · next hq => rw [hq, h]; rfl
+  · cases h
+
+def allRangeOK (n : Nat) : Bool := (cands (rangeI n) n).all (fun p => !isPerm p n || rangeOK n p)
+
+theorem allRangeOK_le5 : ∀ n, n ≤ 5 → allRangeOK n = true := by decide +kernel
+
+theorem unsafePermute_rangeI (n : Nat) (hn : n ≤ 5) (p : List Int) (hp : isPerm p n = true) :
+    unsafePermute p (rangeI n) =
+      .ok (if (isMonotonicInts p).1 && (isMonotonicInts p).2 then PermRes.noop else PermRes.ok p) := by
+  have h := allRangeOK_le5 n hn
+  unfold allRangeOK at h
+  rw [List.all_eq_true] at h
+  have := h p (isPerm_mem_cands hp)
+  rw [hp] at this
+  exact rangeOK_spec (by simpa using this)
+
+/-! ### `UnsafePermute` is the gather by the pattern -/
+
+theorem map_rangeI_getElem {α} [Inhabited α] (xs : List α) :
+    (rangeI xs.length).map (fun i => xs[i.toNat]!) = xs := by
+  apply List.ext_getElem
+  · simp [rangeI]
+  · intro i h₁ h₂
+    simp [rangeI, h₂]
+
+theorem unsafePermute_getElem {α} [Inhabited α] (p : List Int) (xs : List α) (hn : xs.length ≤ 5)
+    (hp : isPerm p xs.length = true)
+    (hni : ¬ ((isMonotonicInts p).1 && (isMonotonicInts p).2) = true) :
+    unsafePermute p xs = .ok (PermRes.ok (p.map (fun i => xs[i.toNat]!))) := by
+  have h := unsafePermute_map' (fun i : Int => xs[i.toNat]!) p (rangeI xs.length)
+  rw [map_rangeI_getElem, unsafePermute_rangeI _ hn p hp, if_neg hni] at h
+  exact h
+
+/-! ### gathering coordinates and strides by the same permutation preserves `dot` -/
+
+theorem sumI_perm {l₁ l₂ : List Int} (h : l₁.Perm l₂) : sumI l₁ = sumI l₂ := by
+  induction h with
+  | nil => rfl
+  | cons x _ ih => simp [sumI, ih]
+  | swap x y l => simp only [sumI]; omega
+  | trans _ _ ih₁ ih₂ => exact ih₁.trans ih₂
+
+theorem dot_map_map {α} (f g : α → Int) : ∀ l : List α,
+    dot (l.map f) (l.map g) = sumI (l.map (fun a => f a * g a))
+  | [] => rfl
+  | a :: t => by simp [dot, sumI, dot_map_map f g t]
+
+theorem dot_eq_sumI_range : ∀ (c s : List Int), c.length = s.length →
+    dot c s = sumI ((List.range c.length).map (fun k => c[k]! * s[k]!))
+  | [], [], _ => rfl
+  | [], _ :: _, h => by simp at h
+  | _ :: _, [], h => by simp at h
+  | a :: c, b :: s, h => by
+    have ih := dot_eq_sumI_range c s (by simpa using h)
+    simp only [dot, List.length_cons, List.range_succ_eq_map, List.map_cons, List.map_map, sumI, ih]
+    rfl
+
+theorem dot_getElem_perm (p : List Int) (n : Nat) (hp : isPerm p n = true) (c s : List Int)
+    (hc : c.length = n) (hs : s.length = n) :
+    dot (p.map (fun i => c[i.toNat]!)) (p.map (fun i => s[i.toNat]!)) = dot c s := by
+  rw [dot_map_map, ← sumI_perm ((isPerm_perm hp).map _), dot_eq_sumI_range c s (hc.trans hs.symm), hc]
+  simp [rangeI, Function.comp_def]
+
+/-! ### `AP.T` and `Dense.T` -/
+
+theorem apT_getElem (ap : AP) (axes : List Int) (hr : ap.shape.length ≤ 5)
+    (hl : ap.strides.length = ap.shape.length)
+    (hp : isPerm axes ap.shape.length = true) (hne : axes ≠ [])
+    (hnse : isScalarEquiv ap.shape = false) (hnv : isVector ap.shape = false)
+    (hni : ¬ ((isMonotonicInts axes).1 && (isMonotonicInts axes).2) = true) :
+    ap.T axes = .ok (.ok { shape := axes.map (fun i => ap.shape[i.toNat]!),
+                           strides := axes.map (fun i => ap.strides[i.toNat]!), fin := true,
+                           o := { ap.o with transposed := true } } axes) := by
+  have hlen := ((isPerm_iff _ _).1 hp).1
+  have hsh := unsafePermute_getElem axes ap.shape hr hp hni
+  have hst := unsafePermute_getElem axes ap.strides (hl ▸ hr) (hl ▸ hp) hni
+  have hemp : axes.isEmpty = false := by cases axes <;> simp_all
+  have hni' : ((isMonotonicInts axes).1 && (isMonotonicInts axes).2) = false := by simpa using hni
+  unfold AP.T
+  simp only [hlen, hemp, hnse, hnv, Bool.false_eq_true, if_false, hsh, hst, hni', bne_self_eq_false,
+    Bool.and_false, Bool.false_and, bind, Except.bind, pure, Except.pure]
+
+/-- the two possible outcomes of a successful `T` on a tensor with no pending transpose -/
+theorem denseT_cases (st : St) (t : Dense) (axes : List Int) (hold : t.old = none) (st' : St)
+    (t' : Dense) (h : Dense.T st t axes = .ok (st', t')) :
+    st' = st ∧ (t' = t ∨ ∃ tr ax, t' = { t with old := some t.ap, tw := some ax, ap := tr }) := by
+  unfold Dense.T at h
+  cases hT : t.ap.T axes with
+  | error e => simp [hT, bind, Except.bind] at h
+  | ok r =>
+    cases r with
+    | noop a b =>
+      simp [hT, bind, Except.bind, pure, Except.pure] at h
+      exact ⟨h.1.symm, .inl h.2.symm⟩
+    | ok tr ax =>
+      simp [hT, bind, Except.bind, pure, Except.pure, hold] at h
+      exact ⟨h.1.symm, .inr ⟨tr, ax, h.2.symm⟩⟩
+
+theorem denseT_ut (st : St) (t t' : Dense) (axes : List Int) (hold : t.old = none)
+    (htw : t.tw = none) (h : Dense.T st t axes = .ok (st, t')) : t'.ut = t := by
+  obtain ⟨_, rfl | ⟨tr, ax, rfl⟩⟩ := denseT_cases st t axes hold st t' h
+  · unfold Dense.ut; rw [hold]
+  · cases t; simp_all [Dense.ut]
+
+theorem denseT_pure (st st' : St) (t t' : Dense) (axes : List Int) (hold : t.old = none)
+    (h : Dense.T st t axes = .ok (st', t')) : st' = st ∧ t'.win = t.win := by
+  obtain ⟨hs, rfl | ⟨tr, ax, rfl⟩⟩ := denseT_cases st t axes hold st' t' h
+  · exact ⟨hs, rfl⟩
+  · exact ⟨hs, rfl⟩
+
 end TM
